@@ -75,16 +75,23 @@ Definition add_ok (now : N) (e : elem) (evs : list oev) (s : ast) : option ast :
     match evs with
     | [OvInflight (-1)%Z; OvDropped t DExpiredInflight] =>
         (* the victim is an expired in-flight entry (a PUBREL entry is reported with tag 0) *)
-        match (if t =? 0 then find (fun a => a_rel a && aexpired now a) (a_inf s) else find_tag t (a_inf s)) with
-        | Some v =>
-            if aexpired now v then
-              let inf' := if t =? 0
-                          then (fix rm (l : list aent) := match l with [] => [] | a :: r => if a_rel a && aexpired now a then r else a :: rm r end) (a_inf s)
-                          else remove_tag t (a_inf s) in
-              (* an entry still awaiting replay can be the victim: the replay shrinks with it *)
-              let rem' := Nat.min (a_rem s) (length inf') in
-              Some (upd s inf' rem' (a_q s ++ [n]) ad (a_handed s) (a_dropped s ++ [t]) (a_cq s) (a_ci s - 1)%Z)
-            else None
+        let idx := (fix ix (l : list aent) (i : nat) : option nat :=
+                      match l with
+                      | [] => None
+                      | a :: r => if (if t =? 0 then a_rel a && aexpired now a else a_tag a =? t) then Some i else ix r (S i)
+                      end) (a_inf s) O in
+        match idx with
+        | Some i =>
+            match nth_error (a_inf s) i with
+            | Some v =>
+                if aexpired now v then
+                  (* an entry still awaiting replay can be the victim: the replay shrinks with it *)
+                  let done := (length (a_inf s) - a_rem s)%nat in
+                  let rem' := if (i <? done)%nat then a_rem s else (a_rem s - 1)%nat in
+                  Some (upd s (remove_nth i (a_inf s)) rem' (a_q s ++ [n]) ad (a_handed s) (a_dropped s ++ [t]) (a_cq s) (a_ci s - 1)%Z)
+                else None
+            | None => None
+            end
         | None => None
         end
     | _ => None
